@@ -8,7 +8,9 @@
 (* (spec -> implementation direction): see Export.                                         *)
 EXTENDS RuntimeCycle, Json
 
-CONSTANTS MaxSteps, MaxCycles, ExportScripts, EnableFaults, EnableRestart, EnableDebugWrites, SrcVals, Dts
+CONSTANTS MaxSteps, MaxCycles, ExportScripts, EnableFaults, EnableRestart, EnableDebugWrites, SrcVals, Dts,
+          CfgSel     \* "base": configurations without FB-task associations, "fb": those with (both fault
+                     \* policies; "fb1": one of them), "all": both sets
 
 VARIABLES hist,      \* script so far (observation only; hidden from the fingerprint by View)
           prev,      \* state before the last step (for action-style invariants)
@@ -21,7 +23,10 @@ A(area, size, byte, bit) == [area |-> area, size |-> size, byte |-> byte, bit |-
 B(var, area, size, byte, bit, ty) == [var |-> var, area |-> area, size |-> size, byte |-> byte, bit |-> bit, ty |-> ty, owner |-> -1]
 T(name, interval, single, prio) == [name |-> name, interval |-> interval, single |-> single, prio |-> prio]
 P(name, task, copies) == [name |-> name, task |-> task, copies |-> copies]
-Ct(name, owner, scope, qual) == [name |-> name, owner |-> owner, scope |-> scope, qual |-> qual, shape |-> "INT"]
+Ct(name, owner, scope, qual) == [name |-> name, owner |-> owner, fb |-> 0, scope |-> scope, qual |-> qual, shape |-> "INT"]
+\* FUNCTION_BLOCK instance `inst` of program instance `prog`, associated with `task`; its member counter
+Fb(prog, inst, task, copies) == [name |-> prog \o "." \o inst, prog |-> prog, inst |-> inst, task |-> task, copies |-> copies]
+Cf(name, fb) == [name |-> name, owner |-> 0, fb |-> fb, scope |-> "fb", qual |-> "none", shape |-> "INT"]
 Cp(from, to) == [from |-> from, to |-> to, via |-> "stmt"]
 
 Drivers2 == << [off |-> 0, len |-> 1], [off |-> 1, len |-> 1] >>
@@ -31,6 +36,7 @@ Cfg1(pol, wd) ==
   [tasks |-> << T("T0", 2, "", 1), T("T1", 0, "s1", 0), T("T2", 3, "", 1) >>,
    programs |-> << P("P0", "T0", << Cp("ix", "qx") >>), P("P1", "T1", << Cp("ib", "qb") >>),
                    P("P2", "", << Cp("ix", "mx") >>), P("P3", "T2", << >>) >>,
+   fbs |-> << >>,
    bindings |-> << B("ix", "I", "X", 0, 1, "BOOL"), B("qx", "Q", "X", 0, 7, "BOOL"),
                    B("ib", "I", "B", 0, 0, "BYTE"), B("qb", "Q", "B", 1, 0, "BYTE"),
                    B("mx", "M", "X", 1, 0, "BOOL") >>,
@@ -43,17 +49,40 @@ Cfg1(pol, wd) ==
 Cfg2(pol, wd) ==
   [tasks |-> << T("T0", 2, "s1", 0), T("T1", 0, "s1", 0) >>,
    programs |-> << P("P0", "T1", << Cp("iw", "qw") >>), P("P1", "T0", << >>), P("P2", "", << >>) >>,
+   fbs |-> << >>,
    bindings |-> << B("iw", "I", "W", 0, 0, "WORD"), B("qw", "Q", "W", 0, 0, "WORD") >>,
    drivers |-> Drivers2, policy |-> pol, wd |-> wd,
    safe |-> << [addr |-> A("Q", "B", 1, 0), val |-> <<170>>] >>,
    singles |-> << "s1" >>, imgLen |-> 2, sinit |-> [x \in {"s1"} |-> TRUE], access |-> <<>>,
    counters |-> << Ct("cnt0", 1, "program", "none"), Ct("cnt1", 2, "program", "none"), Ct("cnt2", 3, "program", "none"),
                    Ct("keep", 2, "program", "retain"), Ct("gk", 1, "global", "retain") >>]
+\* FUNCTION_BLOCK instances associated with tasks, mixed with task programs and a background
+\* program: an instance under another task than its program (the event task), under the task of
+\* its program (runs after EVERY program of that task), instances of a background program, a
+\* task that has only an FB instance, two instances of one program under different tasks, an
+\* instance that writes a bound output, an instance named by a two-part path (member `f` of
+\* another FB instance `g1` of the program, which itself never executes)
+Cfg3(pol, wd) ==
+  [tasks |-> << T("T0", 2, "", 1), T("T1", 0, "s1", 0), T("T2", 3, "", 1) >>,
+   programs |-> << P("P0", "T0", << Cp("ix", "qx") >>), P("P1", "", << >>), P("P2", "T0", << >>) >>,
+   fbs |-> << Fb("P0", "f0", "T1", << Cp("ib", "qb") >>), Fb("P0", "f1", "T0", << >>),
+              Fb("P1", "f0", "T2", << >>), Fb("P1", "g1.f", "T0", << >>) >>,
+   bindings |-> << B("ix", "I", "X", 0, 1, "BOOL"), B("qx", "Q", "X", 0, 7, "BOOL"),
+                   B("ib", "I", "B", 0, 0, "BYTE"), B("qb", "Q", "B", 1, 0, "BYTE") >>,
+   drivers |-> Drivers2, policy |-> pol, wd |-> wd,
+   safe |-> << [addr |-> A("Q", "X", 1, 0), val |-> <<1>>] >>,
+   singles |-> << "s1" >>, imgLen |-> 2, sinit |-> [x \in {"s1"} |-> FALSE], access |-> <<>>,
+   counters |-> << Ct("cnt0", 1, "program", "none"), Ct("cnt1", 2, "program", "none"), Ct("cnt2", 3, "program", "none"),
+                   Cf("fbn0", 1), Cf("fbn1", 2), Cf("fbn2", 3), Cf("fbn3", 4),
+                   Ct("keep", 1, "program", "retain") >>]
 Vars0(c) == [v \in {c.bindings[k].var : k \in DOMAIN c.bindings} |->
                LET b == CHOOSE b \in {c.bindings[k] : k \in DOMAIN c.bindings} : b.var = v
                IN [i \in 1..SizeBytes(b.size) |-> 0]]
 WithVars0(c) == [k \in DOMAIN c \cup {"vars0"} |-> IF k = "vars0" THEN Vars0(c) ELSE c[k]]
-Configs == {WithVars0(c) : c \in {Cfg1("safe_halt", "halt"), Cfg1("halt", "restart"), Cfg2("safe_halt", "safe_halt"), Cfg2("restart", "halt")}}
+BaseConfigs == {Cfg1("safe_halt", "halt"), Cfg1("halt", "restart"), Cfg2("safe_halt", "safe_halt"), Cfg2("restart", "halt")}
+FbConfigs   == {Cfg3("safe_halt", "halt"), Cfg3("halt", "safe_halt")}
+Configs == {WithVars0(c) : c \in (CASE CfgSel = "base" -> BaseConfigs [] CfgSel = "fb" -> FbConfigs
+                                      [] CfgSel = "fb1" -> {Cfg3("safe_halt", "halt")} [] OTHER -> BaseConfigs \cup FbConfigs)}
 
 Init == /\ cfg \in Configs /\ s = Fresh(cfg, cfg.vars0) /\ prev = s /\ last = "Init"
         /\ hist = <<>> /\ nsteps = 0 /\ ncycles = 0
@@ -70,6 +99,9 @@ DoSetSrc == \E d \in DIdx, by \in SrcBytes : last # "SetSrc" /\ s.src[d] # by
         /\ Step("SetSrc", SetSrcOf(s, d, by), [a |-> "SetSrc", d |-> d, bytes |-> by]) /\ UNCHANGED ncycles
 DoInject == \E j \in PIdx : \E at \in 1..(Len(cfg.programs[j].copies) + 1) : EnableFaults /\ s.inj.prog = "" /\ ~s.faulted
         /\ Step("Inject", InjectOf(s, cfg.programs[j].name, at), [a |-> "Inject", prog |-> cfg.programs[j].name, at |-> at]) /\ UNCHANGED ncycles
+\* a fault inside the body of a task-associated FB instance (every program point of it)
+DoInjectFb == \E f \in FIdx : \E at \in 1..(Len(cfg.fbs[f].copies) + 1) : EnableFaults /\ s.inj.prog = "" /\ ~s.faulted
+        /\ Step("Inject", InjectOf(s, cfg.fbs[f].name, at), [a |-> "Inject", prog |-> cfg.fbs[f].name, at |-> at]) /\ UNCHANGED ncycles
 DoFailDriver == \E d \in DIdx, op \in {"read", "write"} : EnableFaults /\ s.drvFail.d = 0 /\ ~s.faulted
         /\ Step("FailDriver", FailDriverOf(s, d, op), [a |-> "FailDriver", d |-> d, op |-> op]) /\ UNCHANGED ncycles
 DoWatchdog == EnableFaults /\ ~s.faulted /\ Step("Watchdog", WatchdogOf(s), [a |-> "Watchdog"]) /\ UNCHANGED ncycles
@@ -85,6 +117,10 @@ DoDebugWrite == EnableDebugWrites /\ last # "DebugVarWrite" /\ \E k \in DOMAIN c
         Step("DebugVarWrite", DebugVarWriteOf(s, b.var, v), [a |-> "DebugVarWrite", var |-> b.var, val |-> v]) /\ UNCHANGED ncycles
 Next == DoDebugWrite \/ DoRestart \/ DoPowerCycle \/ DoAdvance \/ DoSetSingle \/ DoSetSrc \/ DoInject \/ DoFailDriver \/ DoWatchdog \/ DoSimFault \/ DoCycle \/ DoRefusedCycle
 Spec == Init /\ [][Next]_mvars
+\* the instances over configurations with FB-task associations (the *fb.cfg files) add the faults
+\* inside FB bodies; the instances without keep exactly the actions they always had
+NextFb == Next \/ DoInjectFb
+SpecFb == Init /\ [][NextFb]_mvars
 
 \* ------------------------------------------------------------------ C06
 NoDup(q) == \A i, j \in DOMAIN q : i # j => q[i] # q[j]
@@ -97,11 +133,15 @@ AtMostOncePerCycle == AfterCycle => NoDup(s.exec) /\ NoDup(s.trun)
 \* ascending PRIORITY number among the tasks that ran
 OrderIsSorted == AfterCycle => \A i, j \in DOMAIN s.trun : i < j =>
                     cfg.tasks[TaskIdx(s.trun[i])].prio <= cfg.tasks[TaskIdx(s.trun[j])].prio
-\* programs without a task run after every task program, in declaration order
+\* an executed item is a program or a task-associated FB instance; the task it runs under
+IsProg(n)   == \E j \in PIdx : cfg.programs[j].name = n
+FbIdx(n)    == CHOOSE f \in FIdx : cfg.fbs[f].name = n
+ItemTask(n) == IF IsProg(n) THEN cfg.programs[ProgIdx(n)].task ELSE cfg.fbs[FbIdx(n)].task
+\* programs without a task run after every task program (and every task-driven FB instance), in declaration order
 BackgroundAfterTasks == AfterCycle => \A i, j \in DOMAIN s.exec : i < j =>
-     LET a == cfg.programs[ProgIdx(s.exec[i])] b == cfg.programs[ProgIdx(s.exec[j])] IN
-       /\ (a.task = "" => b.task = "")
-       /\ (a.task = "" /\ b.task = "" => ProgIdx(s.exec[i]) < ProgIdx(s.exec[j]))
+     LET a == s.exec[i] b == s.exec[j] IN
+       /\ (ItemTask(a) = "" => ItemTask(b) = "")
+       /\ (ItemTask(a) = "" /\ ItemTask(b) = "" => ProgIdx(a) < ProgIdx(b))
 \* the tasks run in a healthy cycle are exactly the due ones, by the property's wording
 \* evaluated on the state BEFORE the cycle (prev): rising edge of SINGLE since the previous
 \* cycle, or INTERVAL > 0, SINGLE false and INTERVAL elapsed since the last activation
@@ -116,6 +156,37 @@ OverrunsMonotone == last \notin {"Restart", "PowerCycle"} => \A t \in TIdx : s.o
 \* a clock jump over n intervals yields one activation and n-1 overruns
 NoReplay == Healthy => \A t \in TIdx : cfg.tasks[t].single = "" /\ cfg.tasks[t].interval > 0 /\ DueBefore(t) =>
                s.overruns[t] - prev.overruns[t] = (prev.now - prev.lastAct[t]) \div cfg.tasks[t].interval - 1
+
+\* --- FB instances associated with tasks (C06: "program and FB associations")
+Count(q, n) == Cardinality({i \in DOMAIN q : q[i] = n})
+\* nothing executes outside an activation: every executed task item belongs to a task that ran
+ItemsBelongToActivations == AfterCycle => \A i \in DOMAIN s.exec :
+     ItemTask(s.exec[i]) # "" => \E k \in DOMAIN s.trun : s.trun[k] = ItemTask(s.exec[i])
+\* the cycle executes activation after activation (in the order of the task events), and within
+\* one activation the task's programs in declaration order, then its FB instances in declaration
+\* order (declaring program, then position in its list)
+Slot(n) == IF ItemTask(n) = "" THEN Len(s.trun) + 1 ELSE CHOOSE k \in DOMAIN s.trun : s.trun[k] = ItemTask(n)
+\* <<activation, programs before FB instances, declaring program, position in the FB list>>
+ItemKey(n) == IF IsProg(n) THEN <<Slot(n), 0, ProgIdx(n), 0>>
+              ELSE <<Slot(n), 1, ProgIdx(cfg.fbs[FbIdx(n)].prog), FbIdx(n)>>
+RECURSIVE LexLess(_, _, _)
+LexLess(a, b, i) == i <= Len(a) /\ (a[i] < b[i] \/ (a[i] = b[i] /\ LexLess(a, b, i + 1)))
+\* (a strictly increasing sequence of keys: the order is total, so adjacent pairs suffice)
+ActivationsAreBlocks == AfterCycle /\ ItemsBelongToActivations =>
+     LET key == [i \in DOMAIN s.exec |-> ItemKey(s.exec[i])] IN
+       \A i \in 1..(Len(s.exec) - 1) : LexLess(key[i], key[i + 1], 1)
+\* an FB instance (and a program) runs exactly once per activation of its task and never when
+\* its task is not due - whatever the task of the program that declares the instance
+FbOncePerActivation == Healthy => \A f \in FIdx :
+     Count(s.exec, cfg.fbs[f].name) = IF DueBefore(TaskIdx(cfg.fbs[f].task)) THEN 1 ELSE 0
+ProgramOncePerActivation == Healthy => \A j \in PIdx : cfg.programs[j].task # "" =>
+     Count(s.exec, cfg.programs[j].name) = IF DueBefore(TaskIdx(cfg.programs[j].task)) THEN 1 ELSE 0
+\* instance state persists between activations: the member counter counts every execution since
+\* the last restart, and nothing but an execution of the instance changes it
+FbCtr(f) == (CHOOSE c \in {cfg.counters[k] : k \in DOMAIN cfg.counters} : c.fb = f).name
+FbStatePersists == \A f \in FIdx :
+     /\ (AfterCycle => s.ctr[FbCtr(f)] = prev.ctr[FbCtr(f)] + Count(s.exec, cfg.fbs[f].name))
+     /\ (last \notin {"Cycle", "Restart", "PowerCycle", "Init"} => s.ctr[FbCtr(f)] = prev.ctr[FbCtr(f)])
 
 \* ------------------------------------------------------------------ C07
 IsRead(e) == Len(e) = 2
@@ -158,6 +229,15 @@ NoProgramOutputsAfterFault == AfterCycle /\ NewFault /\ s.fault # "pending:Drive
 \* a fault anywhere is latched
 FaultIsLatched == (last \in {"Watchdog", "SimFault"} => s.faulted)
                   /\ (AfterCycle /\ ~prev.faulted /\ (prev.drvFail.d # 0 \/ (prev.inj.prog # "" /\ \E i \in DOMAIN s.exec : s.exec[i] = prev.inj.prog)) => s.faulted)
+
+\* a fault inside a program or inside a task-driven FB instance ends the cycle at that item:
+\* nothing executes after it (the rest of the activation, later activations, background programs)
+FaultEndsExecution == AfterCycle /\ NewFault /\ s.fault = "pending:Program" =>
+    Len(s.exec) > 0 /\ s.exec[Len(s.exec)] = prev.inj.prog
+\* ... and a fault inside a task-driven FB instance follows the same rules as one in a program:
+\* latched as soon as the instance executes with the fault armed
+FbFaultIsLatched == AfterCycle /\ ~prev.faulted /\ prev.inj.prog # "" /\ ~IsProg(prev.inj.prog)
+                      /\ Count(s.exec, prev.inj.prog) > 0 => s.faulted /\ s.fault = "pending:Program"
 
 \* ------------------------------------------------------------------ debugger writes
 \* a pending write changes nothing until a cycle executes; an executed cycle leaves none pending
